@@ -73,6 +73,9 @@ type pgCase struct {
 	bad      string // first GENBUG / UNSTABLE
 	written  int
 	wctr     uint32
+	tracing  bool     // pgr cases: a state digest after every real operation
+	trace    []string // the digests, one per "ck" op
+	suffix   string   // appended to the next digest (result of a ReadFrom)
 }
 
 func (c *pgCase) fail(format string, a ...interface{}) {
@@ -117,6 +120,11 @@ func (c *pgCase) observe() {
 		if !bytes.Equal(got, rf.first) || !bytes.Equal(got, c.bufs[rf.buf].shadow[rf.begin:rf.end]) {
 			c.fail("UNSTABLE:%s:%s", kvfmt.U(uint64(last)), kvfmt.U(uint64(i)))
 		}
+	}
+	if c.tracing {
+		c.op("ck")
+		c.trace = append(c.trace, c.digest()+c.suffix)
+		c.suffix = ""
 	}
 }
 
